@@ -1074,7 +1074,8 @@ def gen_class_spec(rng, world: World, name, kinds, scalars, generic_p=0.25, inhe
     for i, n in enumerate(names):
         if tv and (i == 0 or rng.random() < 0.4):
             tvn = tv[min(i, len(tv) - 1)] if i < len(tv) else rng.choice(tv)
-            ft = rng.choice([['tv', tvn], ['list', ['tv', tvn]], ['opt', ['tv', tvn]], ['tv', tvn]])
+            ft = rng.choice([['tv', tvn], ['list', ['tv', tvn]], ['opt', ['tv', tvn]], ['tv', tvn],
+                             ['opt', ['list', ['tv', tvn]]], ['opt', ['dict', ['s', 'str'], ['tv', tvn]]], ['union', ['list', ['tv', tvn]], ['s', 'str']]])
         elif nest_p and rng.random() < nest_p and any(not sp.get('tv') for sp in world.class_specs.values()):
             inner = rng.choice([nm for (nm, sp) in world.class_specs.items() if not sp.get('tv')])
             ft = rng.choice([['cls', inner], ['cls', inner], ['list', ['cls', inner]], ['opt', ['cls', inner]]])
